@@ -12,6 +12,9 @@ CHECKS = {
  "C03": ("exploration", "offline history checking (porcupine register model per context) + online reply-validity monitor over a virtual transport",
    "PRNG-generated sequential scripts and concurrent histories against a REQ socket whose every peer is a harness-held vt pipe; each delivered reply is checked against the harness's injection log (id must be the context's current request, serial never delivered before); concurrent histories are checked with porcupine. Exploration is the right level: the property quantifies over schedules and arrival orders, which only running the real scheduler with perturbation samples.",
    "Trusted: vt transport and injection log, porcupine, the register model. Decides only the executions produced.", "3/C03"),
+ "C04": ("fault_enumeration", "online monitor over the virtual transport's send log (cause attribution of every retransmission with sound lower bounds) + stuck detector for completion",
+   "Fault scripts enumerate (start state x end-of-life x RetryTime) cells and place PRNG faults (carrier drop, other drop, new pipe, timer expiry, slow peer) at lifecycle points; a trace monitor requires every retransmission to be byte-identical and to have a cause (its previous carrier closed, or a retry interval provably elapsed), nothing after answer/supersede/cancel/close, cancellation instead of resend with RetryTime=0, and completion once a peer answers (stuck detector, no timeouts). Fault enumeration is the right level: the property quantifies over fault sequences at lifecycle points, which the harness can place exactly through the virtual transport.",
+   "Trusted: vt transport timestamps (one monotonic clock, taken before the fault/at Send entry), the cause-attribution rules. 'Eventually' is restated as: once faults stop, the operation completes or the process is provably quiescent.", "3/C04"),
 }
 
 NOT_YET = {}
